@@ -192,6 +192,23 @@ fn sampled(rng: &mut Rng) -> Scenario {
         sc.t_eval = Some(te);
         return sc;
     }
+    if rng.bool(0.02) {
+        // the zero-length run (xend == x0, at any abscissa): x0 itself is the only time that can
+        // be requested, once or repeatedly
+        let x0 = match rng.int(0, 3) {
+            0 => 0.0,
+            1 => rng.sign() * rng.logu(1e-9, 1e9),
+            2 => sc.x0,
+            _ => -sc.x0,
+        };
+        sc.x0 = x0;
+        sc.xend = x0;
+        sc.max_step = None;
+        sc.first_step = None;
+        sc.t_eval = Some(if rng.bool(0.6) { vec![x0] } else { vec![x0, x0] });
+        sc.dense = rng.bool(0.5);
+        return sc;
+    }
     sc.t_eval = Some(place_t_eval(rng, &p.grid, sc.x0, sc.xend));
     let nsteps = p.grid.len() - 1;
     // early stop, one kind per run (or none)
